@@ -2149,8 +2149,8 @@ theorem lookup_filter_some {β} (l : List (Nat × β)) (k n : Nat) (v : β)
     simp at this
   · rwa [lookup_filter_ne _ _ _ hn] at h
 
-/-- the loop makes a row for every name that has a type from the docstring (except an undocumented leading `self`) -/
-theorem resolveLoop_typed (s : Sig) (n t : Nat) (hself : s.selfName ≠ some n) :
+/-- the loop makes a row for every name that has a type from the docstring (the leading `self` / `cls` included, 19b8897) -/
+theorem resolveLoop_typed (s : Sig) (n t : Nat) :
     ∀ (ts : List (Nat × Option PType)) (idx : Nat) (params : List (Nat × Desc)),
     ts.lookup n = some (some ⟨t, .doc⟩) → (∀ k v, params.lookup k = some v → v.name = k) →
     (∃ x ∈ (resolveLoop s ts idx params).1, x.name = n ∧ x.type = some t ∧ x.origin = some .doc) ∧
@@ -2174,9 +2174,8 @@ theorem resolveLoop_typed (s : Sig) (n t : Nat) (hself : s.selfName ≠ some n) 
         | nil => simp [List.lookup] at hl
         | cons a as => rfl
       | none =>
-        have hs : (idx == 0 && s.selfName == some n) = false := by
-          have : (s.selfName == some n) = false := by simpa using hself
-          simp [this]
+        have hs : (idx == 0 && ((some (⟨t, .doc⟩ : PType)).isNone || (some (⟨t, .doc⟩ : PType)).map (·.origin) != some .doc) &&
+            s.selfName == some n) = false := by simp
         simp only [hs, Bool.false_eq_true, if_false]
         exact ⟨⟨_, List.mem_cons_self, rfl, rfl, rfl⟩, Or.inr (by simp)⟩
     · have hne : (n == name) = false := by simpa using hnn
@@ -2209,14 +2208,14 @@ theorem paramsDict_inv (descs : List Desc) : ∀ k v, (paramsDict descs).lookup 
   rw [paramsDict_lookup] at h
   exact lastDesc_name h
 
-/-- **a parameter or keyword whose type is given in the docstring has its row with that type** (also when it
-has no description at all: the table is still shown) — except the leading `self` / `cls` of a method, see
-`type_of_self_counterexample` -/
+/-- **a parameter or keyword whose type is given in the docstring has its row with that type** — also when it
+has no description at all (the table is still shown), and also for the leading `self` / `cls` of a method
+(19b8897; before: `type_of_self_old_counterexample`) -/
 theorem typed_parameter_row (s : Sig) (fh : FH) (n t : Nat)
-    (ht : fh.types.lookup n = some (some ⟨t, .doc⟩)) (hself : s.selfName ≠ some n) :
+    (ht : fh.types.lookup n = some (some ⟨t, .doc⟩)) :
     ∃ r ∈ rows s fh, r.name = n ∧ r.type = some t := by
   obtain ⟨⟨x, hx, hx1, hx2, hx3⟩, hflag⟩ :=
-    resolveLoop_typed s n t hself fh.types 0 (paramsDict fh.descs) ht (paramsDict_inv fh.descs)
+    resolveLoop_typed s n t fh.types 0 (paramsDict fh.descs) ht (paramsDict_inv fh.descs)
   have hxdoc : x.isDocumented = true := by simp [Desc.isDocumented, hx3]
   have hany : (!(paramsDict fh.descs).isEmpty || (resolveLoop s fh.types 0 (paramsDict fh.descs)).2.2) = true := by
     rcases hflag with h | h <;> simp [h]
@@ -2260,10 +2259,21 @@ example :
       [⟨5, some 30, true, some 31, some .doc⟩, ⟨6, some 33, true, some 32, some .doc⟩] := by
   decide
 
-/-- what the table does NOT show (`@type self: …` on a method, no `@param self`): the row of `self` is skipped
-although its type comes from the docstring — counterexample to "every type field is shown" -/
-theorem type_of_self_counterexample :
-    rows ⟨[(7, none), (1, none)], none, some 7⟩ (run ⟨[(7, none), (1, none)], none, some 7⟩ [.type 7 30]) = [] ∧
+/-- `@type self: …` on a method without `@param self` (19b8897): the row of `self` is shown with its type -/
+example :
+    rows ⟨[(7, none), (1, none)], none, some 7⟩ (run ⟨[(7, none), (1, none)], none, some 7⟩ [.type 7 30]) =
+      [⟨7, none, false, some 30, some .doc⟩, ⟨1, none, false, none, none⟩] := by
+  decide
+
+/-- a `type` field is always shown (whatever the name, the signature, the other fields): directly from the fields -/
+theorem type_field_shown (s : Sig) (fh : FH) (n t : Nat) :
+    ∃ r ∈ rows s (step fh (.type n t)), r.name = n ∧ r.type = some t :=
+  typed_parameter_row s _ n t (types_after_type fh n t)
+
+/-- **historical counterexample** (the code before 19b8897, `resolveLoopOld`): the row of `self` was skipped although
+its type came from the docstring, and nothing was reported -/
+theorem type_of_self_old_counterexample :
+    rowsOld ⟨[(7, none), (1, none)], none, some 7⟩ (run ⟨[(7, none), (1, none)], none, some 7⟩ [.type 7 30]) = [] ∧
     (run ⟨[(7, none), (1, none)], none, some 7⟩ [.type 7 30]).reports = [] := by
   decide
 
